@@ -21,6 +21,17 @@ def R(mod, name, cfg="rc"):
 
 
 PROPS = {
+    "C20": dict(
+        rules=[R("interchange", "rule_serde_kinds"), R("interchange", "rule_serde_enc"), R("interchange", "rule_parse_err")],
+        clause="The kind tables of writer and reader agree in both directions: every serde method the KValue writer calls "
+               "has a non-default visitor counterpart building the same kind, with no numeric conversion in the writer and "
+               "checked narrowing in the visitor (R-SERDE-KINDS); every KValue kind the Rust-data Serializer produces for a "
+               "serde kind is accepted by the Deserializer's method for that kind (R-SERDE-ENC); the JSON/YAML/TOML "
+               "libraries never unwrap a parse result (R-PARSE-ERR). Not decided: round-trip equality of values, number "
+               "formatting, text corner cases.",
+        technique="writer/reader table reconstruction from match-lowered MIR (discriminant switches, aggregates, "
+                  "unresolved trait-method calls)",
+    ),
     "C14": dict(
         rules=[R("values", "rule_hasheq"), R("values", "rule_immut"), R("values", "rule_map_order"),
                R("values", "rule_fresh")],
@@ -162,5 +173,4 @@ NOT_APPLICABLE = {
     "C15": "rules not built yet",
     "C17": "rules not built yet",
     "C19": "rules not built yet",
-    "C20": "rules not built yet",
 }
